@@ -25,6 +25,8 @@ ASSUMPTIONS = ["fresh subprocess per shard; test modules are synthetic ModuleTyp
                "(scheduling heuristic only; never a verdict)"]
 MIN_NONTRIVIAL = {"quick": 1500, "thorough": 30000}
 REQUIRED_COUNTERS = {"histories": {"quick": 1500, "thorough": 30000},
+                     "helper_modules_imported_during_scan": {"quick": 100, "thorough": 2000},
+                     "late_module_injections": {"quick": 200, "thorough": 4000},
                      "schedules_2threads": {"quick": 300, "thorough": 5000},
                      "schedules_random": {"quick": 100, "thorough": 2000},
                      "schedules_with_overlap": {"quick": 200, "thorough": 4000},
@@ -50,6 +52,7 @@ def plan(tier, seed):
 
 
 FLAVORS = ["module", "builtin", "both", "neither", "raising_module", "raising_builtin"]
+HIST_FLAVORS = FLAVORS + ["importing_module", "importing_builtin"]
 
 
 def worker(spec):
@@ -72,14 +75,25 @@ def worker(spec):
     names = ["vvmod%d" % i for i in range(5)]
     cache = _glue.add_glue_as_needed.__kwdefaults__["_sys_modules_len_cache"]
 
+    IMPORTED = []   # modules inserted by a glue function while the scan was running
+
+    def import_helper():
+        """what a real glue function does when it imports a sibling module that has glue itself"""
+        n = "vvhelper%d" % len(IMPORTED)
+        h = mk(n, "module")
+        sys.modules[n] = h
+        IMPORTED.append(h)
+
     def mk(name, flavor):
         m = types.ModuleType(name)
-        if flavor in ("module", "both", "raising_module"):
+        if flavor in ("module", "both", "raising_module", "importing_module"):
             def g(m=m, flavor=flavor):
                 LOG.append(("start", "module", name, id(m), threading.get_ident()))
                 try:
                     if flavor == "raising_module":
                         raise ValueError("boom")
+                    if flavor == "importing_module":
+                        import_helper()
                 finally:
                     LOG.append(("end", "module", name, id(m), threading.get_ident()))
             m._stackscope_install_glue_ = g
@@ -91,14 +105,17 @@ def worker(spec):
             try:
                 if flavor == "raising_builtin":
                     raise ValueError("boom")
+                if flavor == "importing_builtin":
+                    import_helper()
             finally:
                 LOG.append(("end", "builtin", name, None, threading.get_ident()))
         return b
 
     def reset():
-        for n in names:
+        for n in names + [h.__name__ for h in IMPORTED] + ["vvlate"]:
             sys.modules.pop(n, None)
             _glue.builtin_glue_pending.pop(n, None)
+        del IMPORTED[:]
         stackscope.extract(0)
         del LOG[:]
 
@@ -124,13 +141,13 @@ def worker(spec):
                     n = rng.choice(names)
                     if n in present:
                         continue
-                    flavor = rng.choice(FLAVORS)
+                    flavor = rng.choice(HIST_FLAVORS)
                     m = mk(n, flavor)
                     sys.modules[n] = m
                     present[n] = m
-                    modglue[id(m)] = flavor in ("module", "both", "raising_module")
+                    modglue[id(m)] = flavor in ("module", "both", "raising_module", "importing_module")
                     modflavor[id(m)] = flavor
-                    if flavor in ("builtin", "both", "raising_builtin") and n not in _glue.builtin_glue_pending:
+                    if flavor in ("builtin", "both", "raising_builtin", "importing_builtin") and n not in _glue.builtin_glue_pending:
                         _glue.builtin_glue_pending[n] = mk_builtin(n, flavor)
                         pending_b[n] = flavor
                     ops.append(("add", n, flavor))
@@ -154,12 +171,20 @@ def worker(spec):
                     before = len(LOG)
                     len_now = len(sys.modules)
                     cached = cache[0]
+                    helpers_before = list(IMPORTED)   # appeared before this extraction started
                     with warnings.catch_warnings(record=True) as w:
                         warnings.simplefilter("always")
                         s = stackscope.extract(0)
                     ops.append(("extract",))
                     exp = []
                     exp_raising = 0
+                    # helper modules inserted by glue during an earlier scan are present now
+                    for h in helpers_before:
+                        if h.__name__ not in present and sys.modules.get(h.__name__) is h:
+                            present[h.__name__] = h
+                            modglue[id(h)] = True
+                            modflavor[id(h)] = "module"
+                            res.count("helper_modules_imported_during_scan")
                     for n, m in present.items():
                         if modglue.get(id(m)):
                             exp.append(("module", n, id(m)))
@@ -235,7 +260,7 @@ def worker(spec):
             if name in ("fastpath_missed", "lock_acquired", "before_glue_call", "scan_done", "lock_released"):
                 self.arrive(i, name)
 
-    def run_schedule(nthreads, flavors, chooser):
+    def run_schedule(nthreads, flavors, chooser, inject_at=None):
         """one run: fresh modules, nthreads threads each calling extract once; returns (problems, overlap)"""
         reset()
         mods = []
@@ -322,6 +347,11 @@ def worker(spec):
                     else:
                         return abort("watchdog: all threads blocked")
                     continue
+                if inject_at is not None and steps == inject_at and "late" not in sched:
+                    # another thread imports a glue-bearing module while the scan is in progress
+                    late = mk("vvlate", "module")
+                    sys.modules["vvlate"] = late
+                    sched["late"] = late
                 i = chooser(runnable)
                 choices.append(i)
                 prev = ctl.state[i]
@@ -368,6 +398,16 @@ def worker(spec):
             for i in range(nthreads):
                 if returned[i] is not None and (not ends or ends[0] >= returned[i]):
                     problems.append("thread %d's extract returned before glue %r had finished" % (i, want))
+        if sched.get("late") is not None:
+            # the first extraction that starts after the late module appeared must install its glue
+            stackscope.extract(0)
+            late = sched["late"]
+            nlate = len([e for e in LOG if e[0] == "end" and e[3] == id(late)])
+            res.count("late_module_injections")
+            if nlate != 1:
+                problems.append("module imported by another thread during the scan: its glue ran %d times by the end "
+                                "of the next extraction (expected exactly once)" % nlate)
+            sys.modules.pop("vvlate", None)
         nraising = len([1 for n, m, fl in mods if fl.startswith("raising")])
         gw = [x for x in wlog if issubclass(x.category, RuntimeWarning) and "glue" in str(x.message)]
         if len(gw) != nraising:
@@ -386,7 +426,16 @@ def worker(spec):
         stack = []   # list of [choice_index, n_alternatives]
         nsched = 0
         done = False
-        while not done and nsched < spec["max_schedules"] and not budget.over():
+        inject_points = [None, 2, 3, 4, 5, 6, 8]
+        inject_idx = 0
+        while nsched < spec["max_schedules"] and not budget.over():
+            if done:
+                inject_idx += 1
+                if inject_idx >= len(inject_points):
+                    break
+                done = False
+                stack = []
+            inject_at = inject_points[inject_idx]
             pos = [0]
 
             def chooser(runnable):
@@ -398,21 +447,21 @@ def worker(spec):
                 stack.append([0, len(runnable)])
                 return runnable[0]
 
-            problems, overlap, choices = run_schedule(nthreads, flavors, chooser)
+            problems, overlap, choices = run_schedule(nthreads, flavors, chooser, inject_at)
             del stack[pos[0]:]
             nsched += 1
             res.evaluations += 1
             res.count("schedules_2threads")
             if overlap:
                 res.count("schedules_with_overlap")
-                res.nontrivial(interp, spec["config"], tuple(choices))
+                res.nontrivial(interp, spec["config"], inject_at, tuple(choices))
             wd = [p for p in problems if p.startswith("watchdog")]
             real = [p for p in problems if not p.startswith("watchdog")]
             if wd:
                 res.inconclusive.append(wd[0])
             if real:
                 res.violation(kind="glue schedule", threads=nthreads, flavors=flavors, schedule=choices,
-                              problems=real[:4], interp=interp)
+                              inject_at=inject_at, problems=real[:4], interp=interp)
             # backtrack
             while stack and stack[-1][0] + 1 >= stack[-1][1]:
                 stack.pop()
@@ -420,7 +469,7 @@ def worker(spec):
                 done = True
             else:
                 stack[-1][0] += 1
-        if done:
+        if done and inject_idx >= len(inject_points) - 1:
             res.count("dfs_exhausted_configs")
         res.sample({"leg": "dfs", "config": [nthreads, flavors], "schedules": nsched, "exhausted": done})
         return res
@@ -431,7 +480,8 @@ def worker(spec):
             break
         nthreads = rng.choice((3, 3, 4))
         flavors = [rng.choice(FLAVORS) for _ in range(rng.randint(1, 3))]
-        problems, overlap, choices = run_schedule(nthreads, flavors, lambda r: rng.choice(r))
+        problems, overlap, choices = run_schedule(nthreads, flavors, lambda r: rng.choice(r),
+                                                  inject_at=rng.choice((None, None, 1, 2, 3, 4, 5, 6, 7, 9)))
         res.evaluations += 1
         res.count("schedules_random")
         if overlap:
